@@ -455,6 +455,15 @@ func freeze(v value, depth int) value {
 func render(v value) string {
 	switch v := v.(type) {
 	case iface:
+		if v.t != nil {
+			if sl, ok := v.t.Underlying().(*types.Slice); ok {
+				if b, ok := sl.Elem().Underlying().(*types.Basic); ok && b.Kind() == types.Uint8 {
+					if bs, ok := v.v.([]value); ok && len(bs) == 0 {
+						return `""` // an empty []byte prints like the empty string, as in the native vf.Observe
+					}
+				}
+			}
+		}
 		return render(v.v)
 	case symInt:
 		return fmt.Sprint(concreteInt(v.k, P.ctx.Eval(v.t)))
